@@ -70,6 +70,32 @@ Theorem C10_alias_is_register : forall fuel cx name n,
 Proof. intros. rewrite (view_alias fuel cx name n) by assumption. rewrite view_reg. reflexivity. Qed.
 Print Assumptions C10_alias_is_register.
 
+(** (7) AN .equ IS ITS DEFINITION.  The directive stores the expression as written ([C10_equ_stored]); every reference evaluates
+    that expression afresh in the context of the reference - the location counter and the .set variables it mentions are read
+    there and then, nothing is cached ([C10_equ_evaluated_at_use]). *)
+Theorem C10_equ_stored : forall c name e, get_equ (ctx_set_equ c name e) name = Some e.
+Proof. intros. unfold get_equ, ctx_set_equ. cbn [equs]. apply lookup_insert_same. Qed.
+Theorem C10_equ_evaluated_at_use : forall fuel c n e,
+  get_expr c n = Some e -> (forall z, e <> EConst z) ->
+  run (S fuel) c (EIdent n) = run_n fuel 1 c e.
+Proof.
+  intros fuel c n e H Hn. unfold run. cbn [run_n]. rewrite H.
+  destruct e; try reflexivity. exfalso. eapply Hn. reflexivity.
+Qed.
+
+(** (8) A LABEL IN FRONT OF A DIRECTIVE is entered before the directive acts: whatever the directive does to the location
+    (.org, a segment switch, an .include that contributes code), the label is the location of its own line (its value: C02_label). *)
+Require Import AvraV.Model.Lines AvraV.Proofs.CondProofs.
+Theorem C10_label_before_directive : forall fuel inc ln lab d ops st sk,
+  parse_line (snd ln) = Some (DirLine (Some lab) d ops) -> (d <> DElIf \/ sk = true) ->
+  line_step fuel inc ln sk st =
+  directive_parse fuel inc d ops (push_item st ((fst ln + 1)%N, 1%N) (ILabel lab)) (fst ln + 1)%N.
+Proof.
+  intros fuel inc ln lab d ops st sk H Hd. unfold line_step. rewrite H. cbn [label_item].
+  destruct d; try reflexivity. destruct sk; [reflexivity|]. destruct Hd as [Hd|Hd]; congruence.
+Qed.
+Print Assumptions C10_label_before_directive.
+
 Definition code_of (src : string) : option (list N) :=
   match build_str 200 (list_ascii_of_string src) with Ok b => Some (b_code b) | _ => None end.
 Definition nl := String (Ascii.ascii_of_N 10) EmptyString.
